@@ -27,6 +27,7 @@ var catalogue = map[string]catEntry{
 	"flip-requiredness":             {true, "audit.go:268 'Presence modifier changed from optional/default to required (or vice versa)' (:379-384)"},
 	"add-required-field":            {true, "audit.go:271 'Addition of required field' (:406-408)"},
 	"remove-enum-value":             {true, "audit.go:223 'Enum variant removed' (checkEnumValues :246-257, by numeric value)"},
+	"renumber-enum-value":           {true, "audit.go:223 'Enum variant removed': variants are compared by numeric value (:246-257), the old number is gone although the name survives; the number is what travels on the wire"},
 	"remove-scope":                  {true, "audit.go:110 'Scopes removed' (:126)"},
 	"rename-scope":                  {true, "audit.go:110 'Scopes removed': the old name is gone (:126)"},
 	"change-prefix":                 {true, "audit.go:111 'Scope prefix changed in any way other than renaming variables' (:131-152)"},
@@ -919,6 +920,67 @@ func (en *enumerator) enumLevel(f *idl.File, e *idl.Enum, declPos string) {
 					}
 					return false
 				})
+			}
+		}
+		// same name, new number: the old number disappears
+		en.add("renumber-enum-value", fb, site+" -> fresh number", shape, []string{vkey}, func(c *ectx) bool {
+			ce := enumOf(fileOf(c.p, fb), name)
+			if ce == nil {
+				return false
+			}
+			for _, x := range ce.Values {
+				if x.Value != val {
+					continue
+				}
+				m := maxEnumValue(ce)
+				if baseMax > m {
+					m = baseMax
+				}
+				x.Value, x.Explicit = m+1, true
+				next := 0
+				for _, y := range ce.Values { // the others keep their numbers
+					if !y.Explicit && y.Value != next {
+						y.Explicit = true
+					}
+					next = y.Value + 1
+				}
+				return true
+			}
+			return false
+		})
+		// an implicit variant removed from the middle: the later ones shift
+		// down, every surviving name is still there, the LAST number is gone
+		if i+1 < len(e.Values) && !e.Values[i+1].Explicit {
+			if _, nested := variantRefs(p, f, name, vname); nested == 0 {
+				en.add("remove-enum-value", fb, site+", later variants shift", shape+"/shift", []string{vkey, ekey + "/shift"}, func(c *ectx) bool {
+					cf := fileOf(c.p, fb)
+					ce := enumOf(cf, name)
+					if ce == nil || len(ce.Values) < 2 {
+						return false
+					}
+					for k, x := range ce.Values {
+						if x.Value != val {
+							continue
+						}
+						if k+1 >= len(ce.Values) || ce.Values[k+1].Explicit {
+							return false
+						}
+						if _, nested := variantRefs(c.p, cf, name, x.Name); nested > 0 {
+							return false
+						}
+						ce.Values = append(ce.Values[:k:k], ce.Values[k+1:]...)
+						next := 0
+						for _, y := range ce.Values {
+							if !y.Explicit {
+								y.Value = next
+							}
+							next = y.Value + 1
+						}
+						replaceVariantRefs(c.p, cf, name, x.Name, ce.Values[0].Name)
+						return true
+					}
+					return false
+				}).Quals = []string{"later-variants-shift"}
 			}
 		}
 		en.add("rename-enum-variant", fb, site, shape, []string{vkey}, func(c *ectx) bool {
